@@ -147,7 +147,7 @@ func (p *Proxy) handleRangeRequest(r responder.Responder, req *http.Request, cac
 		if ifRange.IsLeft() {
 			// IfRange is ETag
 			etagIfRange := ifRange.ForceUnwrapLeft()
-			if etagIfRange != cached.Metadata.Object.ETag {
+			if etagIfRange == "" || etagIfRange != cached.Metadata.Object.ETag {
 				slog.Info("If-Range does not match cached ETag. Sending full 200 response.", "url", req.URL, "key", key)
 				return ErrIfRangeMismatch
 			}
